@@ -22,6 +22,7 @@ pub enum LT {
     VmT,            // the abstract interpreter state
     Handler,        // object.rs ExcHandler
     ClosureRec,     // a `Gc<ObjClosure>` as the call mechanism sees it: Rs.ClosureRec
+    GcBox,          // a box of the heap handed to a closure of a collector pass: its index
     FiberId,        // a `Gc<RefCell<ObjFiber>>` / `Root<..>` / `*mut ObjFiber`: the number that names the fiber
 }
 
@@ -53,6 +54,7 @@ impl LT {
             LT::VmT => "Rs.Vm".into(),
             LT::Handler => "Rs.Handler".into(),
             LT::FiberId => "Nat".into(),
+            LT::GcBox => "Nat".into(),
             LT::ClosureRec => "Rs.ClosureRec".into(),
         }
     }
@@ -185,6 +187,8 @@ struct Cx<'a> {
     vm_mode: bool,
     /// … of `ObjFiber` (its own fields are the fiber part of that state)
     fiber_mode: bool,
+    /// a collector pass of `Heap`: the state `vm_` is the heap of boxes (`Rs.GcHeap`)
+    gc_mode: bool,
 }
 
 #[derive(Clone)]
